@@ -88,10 +88,10 @@ func m1C05URL(r *rng, sc *c01Scenario, f *rules.NetworkRule) string {
 	default:
 		u = urlAround(r, t)
 	}
-	if r.chance(1, 8) {
+	if r.chance(1, 8) || (f.IsOptionEnabled(rules.OptionMatchCase) && r.chance(1, 3)) {
 		// URL LENGTH (log-scale filler after the host, from a few bytes to beyond the 4 KiB cap): the shortcut and the
 		// letters whose case is arranged below lie 64, 300, 1500, 4000 bytes into the URL
-		u = nLongURL(r, u, nLog(r, 8, 5000))
+		u = nLongURL(r, u, nPadLog(r, 8, 5000))
 	}
 	if f.Shortcut == "" || r.chance(1, 10) {
 		return u
